@@ -476,6 +476,15 @@ class ExplicitComponent(Component):
                     with self._call_user_function('compute_jacvec_product'):
                         self._compute_jacvec_product_wrapper(self._inputs, d_inputs, d_residuals,
                                                              mode, self._discrete_inputs)
+
+                    if mode == 'rev':
+                        # a matrix-free component does not know which of its inputs are relevant to
+                        # the current seeds; whatever it accumulated into irrelevant inputs must not
+                        # be transferred into (skipped, never re-zeroed) irrelevant systems.
+                        is_relevant = self._relevance.is_relevant
+                        for name in d_inputs._names:
+                            if not is_relevant(name):
+                                d_inputs._abs_get_val(name)[:] = 0.0
                 finally:
                     d_inputs.read_only = d_residuals.read_only = False
 
